@@ -11,7 +11,7 @@ import ast
 from .. import bitalg
 from ..astutil import chain, src
 from ..model import Unrecognised
-from .common import function_as_expr, concept_cls, resolve_method
+from .common import function_as_expr, concept_cls, resolve_method, subclass_overrides
 
 
 def _sub(r, x, y):  # x subset y on row
@@ -90,6 +90,75 @@ def render(rows):
             'note': 'every such pair of extents is realised by the context whose extent family is {all, x, y, x&y}'}
 
 
+def make_hook(self_name, other_name, used):
+    """Inlining of derived forms: calls of the other predicates (by their specification - each is decided on its own),
+    rich comparisons of concepts, identity/equality of concept-valued expressions (same lattice: same extent)."""
+
+    def concept_term(n):
+        """Extent of a concept-valued expression as a term, or None."""
+        if isinstance(n, ast.Name):
+            if n.id == self_name:
+                used.add('a')
+                return bitalg.Term(lambda r: r['a'], 'a', frozenset('O'))
+            if n.id == other_name:
+                used.add('b')
+                return bitalg.Term(lambda r: r['b'], 'b', frozenset('O'))
+            return None
+        c = chain(n)
+        if c and len(c) == 3 and c[0] in (self_name, other_name) and c[1] == 'lattice' and c[2] in ('supremum', 'infimum'):
+            v = 'U' if c[2] == 'supremum' else 'Z'
+            used.add(v)
+            return bitalg.Term(lambda r, v=v: r[v], v, frozenset('O'))
+        pair = None
+        kind = None
+        if isinstance(n, ast.Call) and isinstance(n.func, ast.Attribute) and n.func.attr in ('join', 'meet', '__or__', '__and__') and len(n.args) == 1:
+            pair, kind = (n.func.value, n.args[0]), {'__or__': 'join', '__and__': 'meet'}.get(n.func.attr, n.func.attr)
+        elif isinstance(n, ast.BinOp) and isinstance(n.op, (ast.BitOr, ast.BitAnd)):
+            pair, kind = (n.left, n.right), 'join' if isinstance(n.op, ast.BitOr) else 'meet'
+        if pair is not None:
+            l, r = concept_term(pair[0]), concept_term(pair[1])
+            if l is None or r is None:
+                return None
+            if kind == 'meet':   # extent of the meet = intersection of the extents (C07)
+                return bitalg.Term(lambda row: l(row) & r(row), f'({l.text} & {r.text})', frozenset('O'))
+            if {l.text, r.text} == {'a', 'b'}:   # extent of the join = closure of the union: a free variable J >= a | b
+                used.add('J')
+                return bitalg.Term(lambda row: row['J'], 'J', frozenset('O'))
+        return None
+
+    def rows_as(occ, lt, rt):
+        """Rows re-labelled so that a := extent(lt), b := extent(rt) (for the specification of an inlined predicate)."""
+        return [{'a': lt(r), 'b': rt(r)} for r in occ if not r[bitalg.OUTSIDE]]
+
+    def hook(n, rec):
+        # x.pred(y) / x < y etc.
+        name = None
+        lhs = rhs = None
+        if isinstance(n, ast.Call) and isinstance(n.func, ast.Attribute) and len(n.args) == 1 and not n.keywords:
+            nm = ALIASES.get(n.func.attr, n.func.attr)
+            if nm in SPEC:
+                name, lhs, rhs = nm, n.func.value, n.args[0]
+        elif isinstance(n, ast.Compare) and len(n.ops) == 1:
+            opmap = {ast.LtE: 'implies', ast.GtE: 'subsumes', ast.Lt: 'properly_implies', ast.Gt: 'properly_subsumes'}
+            if type(n.ops[0]) in opmap:
+                name, lhs, rhs = opmap[type(n.ops[0])], n.left, n.comparators[0]
+            elif isinstance(n.ops[0], (ast.Is, ast.IsNot, ast.Eq, ast.NotEq)):
+                l, r = concept_term(n.left), concept_term(n.comparators[0])
+                if l is not None and r is not None:
+                    eq = isinstance(n.ops[0], (ast.Is, ast.Eq))
+                    if eq:
+                        return bitalg.Pred(lambda occ: all(l(row) == r(row) for row in occ), f'{l.text} is {r.text}')
+                    return bitalg.Pred(lambda occ: any(l(row) != r(row) for row in occ), f'{l.text} is not {r.text}')
+        if name is not None:
+            l, r = concept_term(lhs), concept_term(rhs)
+            if l is not None and r is not None:
+                spec = SPEC[name][1]
+                return bitalg.Pred(lambda occ: spec(rows_as(occ, l, r)), f'{name}({l.text}, {r.text})')
+        return None
+
+    return hook
+
+
 def decide(R, func, specname):
     slot = specname
     params = func.params
@@ -106,7 +175,7 @@ def decide(R, func, specname):
             if v:
                 used.add(v)
             return v
-        pred = bitalg.compile_pred(expr, tracking, SORT.get)
+        pred = bitalg.compile_pred(expr, tracking, SORT.get, hook=make_hook(params[0], params[1], used))
     except bitalg.SortError as e:
         R.bad('PREDICATE', func, e.node, slot, 'operands of one sort (object sets)', str(e))
         return
@@ -125,10 +194,11 @@ def decide(R, func, specname):
         else:
             R.unknown('PREDICATE', func, func.node, slot, f'mixes extents and intents: {pred.text}')
         return
-    variables = ['a', 'b', 'U'] + (['Z'] if 'Z' in used else [])
+    variables = ['a', 'b', 'U'] + (['Z'] if 'Z' in used else []) + (['J'] if 'J' in used else [])
 
     def row_ok(r):
-        return r['U'] == 1 and (not r.get('Z') or (r['a'] and r['b']))
+        return (r['U'] == 1 and (not r.get('Z') or (r['a'] and r['b']))
+                and ('J' not in r or r['J'] or not (r['a'] or r['b'])))
     pats = list(bitalg.patterns(variables, row_ok))
     diff = bitalg.equivalent(pred, _universe(SPEC[specname][1]), pats)
     if diff is None:
@@ -136,6 +206,9 @@ def decide(R, func, specname):
     else:
         code = bool(pred(tuple(diff) + (_outside(variables),)))
         extra = render(diff)
+        if 'J' in used:
+            extra['extent_of_join'] = [f'o{i}' for i, r in enumerate(diff, 1) if r.get('J')]
+            extra['note'] = 'realised by the context whose extent family is {all, join, x, y, x&y}: the join is the closure of the union, not the union'
         extra.update(code_says=code, spec_says=not code)
         R.bad('PREDICATE', func, func.node, slot, SPEC[specname][0], pred.text, extra=extra)
 
@@ -168,4 +241,14 @@ def run(model, R):
                 o.slot = f'{name} -> {specname}'
         else:
             decide(R, func, specname)
+    # a subclass (Infimum, Atom, Supremum, ...) overriding a predicate is decided against the same specification
+    for sub, name, target in subclass_overrides(model, cls, list(SPEC) + list(ALIASES)):
+        specname = ALIASES.get(name, name)
+        if hasattr(target, 'node'):
+            before = len(R.obs)
+            decide(R, target, specname)
+            for o in R.obs[before:]:
+                o.slot = f'{sub.name}.{name} (override) -> {specname}'
+        else:
+            R.unknown('PREDICATE', f'{sub.key}.{name}', sub.node, f'{sub.name}.{name} (override)', 'rebinding that is not a method definition')
     return __doc__.strip()
